@@ -40,6 +40,10 @@ PEN = "tangelo/toolboxes/ansatz_generator/penalty_terms.py"
 COMBI = "tangelo/toolboxes/qubit_mappings/combinatorial.py"
 HCB = "tangelo/toolboxes/qubit_mappings/hcb.py"
 FCI = "tangelo/algorithms/classical/fci_solver.py"
+MIH = "tangelo/problem_decomposition/incremental/incremental_helper.py"
+ONI = "tangelo/problem_decomposition/oniom/_helpers/helper_classes.py"
+DMETF = "tangelo/problem_decomposition/dmet/dmet_problem_decomposition.py"
+QPEF = "tangelo/algorithms/projective/qpe.py"
 ISP = "tangelo/toolboxes/molecular_computation/integral_solver_pyscf.py"
 
 FIRE = [
@@ -101,6 +105,19 @@ FIRE = [
     ("complex-variance-subtracts", "C02", [(BACK, "else var_real + var_imag  # always", "else var_real - var_imag  # always")], "K"),
     ("truncation-cleanup-with-budget-tolerance", "C14", [(OPS, "        self.terms = compressed_op\n        self.compress()", "        self.terms = compressed_op\n        self.compress(abs_tol=epsilon / frob_factor)")], "K9.truncation-bound"),
     ("truncation-keeps-running-sum-of-magnitudes", "C14", [(OPS, "            coef2_sum += abs(coef)**2\n", "            coef2_sum += abs(coef)**2 / 2\n")], "K9.truncation-bound"),
+    # ---- C15
+    ("mi-skips-highest-lower-order", "C15", [(MIH, "                    for n_increment in range(1, n_body):", "                    for n_increment in range(1, n_body - 1):")], "K9.mi-summation"),
+    ("mi-user-energy-without-correction", "C15", [(MIH, "            user_provided_energies = {frag_id: e + fragment_correction[frag_id] for frag_id, e in user_provided_energies.items()}", "            user_provided_energies = {frag_id: e for frag_id, e in user_provided_energies.items()}")], "K9.mi-summation"),
+    ("oniom-low-level-not-subtracted", "C15", [(ONI, "            self.e_low *= -1\n", "")], "K9.oniom-sum"),
+    ("oniom-low-level-subtracted-twice", "C15", [(ONI, "        self.e_fragment = self.e_high + self.e_low", "        self.e_fragment = self.e_high - self.e_low")], "K9.oniom-sum"),
+    ("link-measured-from-leaving-atom", "C15", [(ONI, "        replacement = self.factor*(leaving-staying) + staying", "        replacement = self.factor*(leaving-staying) + leaving")], "K9.link-placement"),
+    ("dmet-rebuild-drops-spin", "C15", [(DMETF, "            new_molecule.spin = self.molecule.spin\n", "")], "K8.rebuild-agreement"),
+    ("dmet-fragment-sizes-from-first-list", "C15", [(DMETF, "            new_fragment_atoms = [len(frag) for frag in self.fragment_atoms]", "            new_fragment_atoms = [len(self.fragment_atoms[0]) for frag in self.fragment_atoms]")], "K8.rebuild-agreement"),
+    # ---- C20
+    ("qft-phase-denominator", "C20", [(AU, "parameter=prefac*np.pi/2**(n-i))]", "parameter=prefac*np.pi/2**(n-i+1))]")], "K9.qft"),
+    ("qft-inverse-not-reversed", "C20", [(AU, "        qft_gates = [gate for gate in reversed(qft_gates)]\n", "")], "K9.qft"),
+    ("qft-swaps-one-short", "C20", [(AU, "    for qubit_index in range(n//2):\n        gate_list += [Gate(\"SWAP\"", "    for qubit_index in range((n - 1)//2):\n        gate_list += [Gate(\"SWAP\"")], "K9.qft"),
+    ("qpe-phase-lsb-first", "C20", [(QPEF, "        return sum([0.5**(i+1) for i, b in enumerate(bitstring) if b == \"1\"])", "        return sum([0.5**(i+1) for i, b in enumerate(bitstring[::-1]) if b == \"1\"])")], "K9.phase-readout"),
     # ---- C06
     ("ladder-not-reversed", "C06", [(AU, "    gates += cnot_ladder_gates[::-1]", "    gates += cnot_ladder_gates")], "K9.exp-pauliword"),
     ("negative-angle-offset", "C06", [(AU, "    angle = 2.*coef if coef >= 0. else 4*np.pi+2*coef", "    angle = 2.*coef if coef >= 0. else 2*np.pi+2*coef")], "K9.angle-law"),
@@ -239,6 +256,11 @@ SILENT = [
     ("combinatorial-label-spelling", "C03", [(COMBI, "            unique_int = (int_alpha * n_choose_beta) + int_beta", "            unique_int = int_beta + n_choose_beta * int_alpha")]),
     ("hcb-coefficient-spelling", "C03", [(HCB, "            r2_coeff = 2*e_tei[i, j, j, i] - e_tei[i, j, i, j]", "            direct, exchange = e_tei[i, j, j, i], e_tei[i, j, i, j]\n            r2_coeff = direct + direct - exchange")]),
     ("fci-alpha-count-closed-form", "C04", [(FCI, "        self.n_alpha = self.nelec//2 + self.spin//2 + (self.nelec % 2)", "        self.n_alpha = (self.nelec + self.spin)//2")]),
+    ("mi-increment-spelling", "C15", [(MIH, "                corr_energy = fragment_energies[frag_id] - self.e_mf\n                epsilons[frag_id] = corr_energy", "                epsilons[frag_id] = -self.e_mf + fragment_energies[frag_id]")]),
+    ("oniom-sum-spelling", "C15", [(ONI, "        self.e_fragment = self.e_high + self.e_low", "        self.e_fragment = self.e_low + self.e_high")]),
+    ("link-placement-spelling", "C15", [(ONI, "        replacement = self.factor*(leaving-staying) + staying", "        replacement = staying*(1 - self.factor) + leaving*self.factor")]),
+    ("qft-phase-spelling", "C20", [(AU, "parameter=prefac*np.pi/2**(n-i))]", "parameter=prefac*2*np.pi/2**(n-i+1))]")]),
+    ("qpe-phase-spelling", "C20", [(QPEF, "        return sum([0.5**(i+1) for i, b in enumerate(bitstring) if b == \"1\"])", "        return sum(int(b) / 2**(i+1) for i, b in enumerate(bitstring))")]),
     ("angle-law-spelling", "C06", [(AU, "    angle = 2.*coef if coef >= 0. else 4*np.pi+2*coef", "    angle = 2.*coef + (0. if coef >= 0. else 4*np.pi)")]),
     ("cirq-branches-reordered", "C01", [(TCIRQ, '        elif gate_name in {"SWAP"}:\n            target_circuit.append(GATE_CIRQ[gate_name](qubit_list[gate.target[0]], qubit_list[gate.target[1]]))\n        elif gate_name in {"CSWAP"}:\n            next_gate = GATE_CIRQ[gate_name].controlled(num_controls)\n            target_circuit.append(next_gate(*control_list, qubit_list[gate.target[0]], qubit_list[gate.target[1]]))\n',
                                          '        elif gate_name in {"CSWAP"}:\n            next_gate = GATE_CIRQ[gate_name].controlled(num_controls)\n            target_circuit.append(next_gate(*control_list, qubit_list[gate.target[0]], qubit_list[gate.target[1]]))\n        elif gate_name in {"SWAP"}:\n            target_circuit.append(GATE_CIRQ[gate_name](qubit_list[gate.target[0]], qubit_list[gate.target[1]]))\n')]),
